@@ -96,10 +96,43 @@ def gen_spec(rng, kinds=("grid", "cvt", "cvt_brute", "cvt_chunk", "sliding"), cm
         spec["lr"] = rng.choice([0.0, 0.25, 0.5, 0.75, 1.0, 0.1, 0.3])
         spec["tmin"] = rng.choice([-4.0, 0.0, 1.5, -100.0])
     spec["seed"] = rng.randrange(1 << 30)
+    if rng.random() < 0.35:
+        # lifecycle: before every [every]-th operation the live archive is replaced by a copy of itself (copy.deepcopy / pickle round trip);
+        # a copy must behave exactly like the original from then on (no model operation corresponds to it)
+        spec["relay"] = {"how": rng.choice(["deepcopy", "pickle"]), "every": rng.choice([1, 2, 3, 5])}
     return spec
 
 
+DECOYS = []     # archives with OTHER settings that stay alive next to the archive under test (settings are per instance, never per class)
+
+
+def relay(archive, spec, step):
+    """the archive to continue with at operation number [step]"""
+    r = spec.get("relay")
+    if not r or step == 0 or step % r["every"] != 0:
+        return archive
+    if r["how"] == "deepcopy":
+        import copy
+        return copy.deepcopy(archive)
+    import pickle
+    return pickle.loads(pickle.dumps(archive))
+
+
 def make_archive(spec):
+    archive = _make_archive(spec)
+    if spec.get("decoy", True):
+        try:
+            d = dict(spec, dtype="d" if spec["dtype"] == "f" else "f", offset=spec["offset"] + 3.0, seed=spec["seed"] + 1, odtype=None)
+            if spec["kind"] != "sliding":
+                d["lr"], d["tmin"] = (None, None) if spec.get("tmin") is not None else (0.25, -7.0)
+            DECOYS.append(_make_archive(d))
+            del DECOYS[:-3]
+        except Exception:  # noqa   (a decoy the library rejects is no decoy)
+            pass
+    return archive
+
+
+def _make_archive(spec):
     from ribs.archives import CVTArchive, GridArchive, SlidingBoundariesArchive
     dtype = DT[spec["dtype"]]
     ef = extra_fields(spec["extras"]) or None
@@ -355,7 +388,8 @@ def run_impl(spec, ops, obs=True):
     archive = make_archive(spec)
     table = {}
     trace, mops = [], []
-    for op in ops:
+    for step, op in enumerate(ops):
+        archive = relay(archive, spec, step)
         ent, m = apply_op(archive, spec, op, table, obs)
         trace.append(ent)
         mops.extend(m)
